@@ -222,6 +222,28 @@ def case_cond_ops(cls, R, Dy, Dx):
     return Case(label, fn)
 
 
+def case_feature_batch(kind, Dy, Dx, Dk, R):
+    """feature conditionals with a batch of R densities p(x): component r of every transformation only sees component r"""
+    label = f"feature-batch/{kind}/Dy{Dy}Dx{Dx}Dk{Dk}/R{R}"
+    def fn(m):
+        from .approx import mk_feat, mk_px
+        rng = gen.rng_path(m.seed, label)
+        fails = []
+        c = mk_feat(m, rng, kind, Dy, Dx, Dk)
+        p = mk_px(m, rng, R, Dx)
+        idx = gen.index_array(rng, R); w = wrap(idx, R)
+        params = dict(kind=kind, Dy=Dy, Dx=Dx, Dk=Dk, R=R, idx=[int(i) for i in idx])
+        ps = m.slice(p.reg, idx)
+        for which in ("marginal", "joint", "conditional"):
+            full = m.feat_transform(which, c.reg, p.reg); part = m.feat_transform(which, c.reg, ps)
+            same_obj(fails, f"feature:{which}:{kind}", m.regs.get(m.slice(full, idx)) if m.regs.get(full) is not None else None, m.regs.get(part), params, tol=1e-7)
+        fx = m.feat_cross(c.reg, p.reg); px_ = m.feat_cross(c.reg, ps)
+        if m.regs.get(fx) is not None and m.regs.get(px_) is not None:
+            fail_if(fails, PROPERTY, f"feature:cross-terms:{kind}", "E[y x'] of the slice != slice", np.asarray(m.regs[px_]), np.asarray(m.regs[fx])[w], params=params)
+        return fails
+    return Case(label, fn)
+
+
 def cases(seed, tier):
     rng = gen.rng_path(seed, "C12")
     out = []
@@ -240,6 +262,8 @@ def cases(seed, tier):
             cls = COND_CLASSES[int(rng.integers(0, 4))]
             Dy, Dx = dims_for(cls, rng)
             out.append(case_cond_ops(cls, int(rng.integers(1, 7)), Dy, Dx))
+    for kind, Dy, Dx, Dk, R in [("rbf", 2, 2, 3, 3), ("lsem", 1, 2, 2, 2)] + ([("lsem", 2, 3, 3, 4)] if tier != "quick" else []):
+        out.append(case_feature_batch(kind, Dy, Dx, Dk, R))
     try:
         from . import approx_hetero
         out.extend(approx_hetero.c12_hetero_cases(seed, tier))
